@@ -670,14 +670,11 @@ func checkJoin(prop string, sc *JoinSc, res *simrt.Result) Verdict {
 	case "C16":
 		checkJoinStop(&v, sc, jv, res)
 	case "C19", "C20":
-		terminated := jv.outClosed >= 0 || jv.stopRet >= 0
-		how := "output closed"
-
 		if jv.stopRet >= 0 {
-			how = "Stop returned"
+			checkGoroutines(&v, res, jv.stopRet, "Stop returned", true)
+		} else {
+			checkGoroutines(&v, res, jv.outClosed, "output closed", false)
 		}
-
-		checkGoroutines(&v, res, terminated, how)
 
 		if normalEnd && !res.AllDone && jv.inClosed >= 0 && len(v.Viol) == 0 && jv.outClosed < 0 {
 			// input closed, consumer reading, and the discipline never terminated
